@@ -46,14 +46,15 @@ theorem ops_valid_script {α : Type} [DecidableEq α] (t : α) (x y : List α) :
   have hv := opsSpec_valid t x y
   exact ⟨_, operations_eq _ _, hv, by simpa using hv.length_left, by simpa using hv.length_right⟩
 
-example : operations [0, 1, 2, 3] [0, 1, 5, 3] = .ok [.noOp, .noOp, .deletion, .insertion, .noOp] := by rfl
+example : operations [0, 1, 2, 3] [0, 1, 5, 2, 3] = .ok [.noOp, .noOp, .insertion, .noOp, .noOp] := by rfl
 
 /-- Without equal first tokens the claim is false (all border cells point at cell 0): the
 reason `tokenize` prepends the empty token. -/
 theorem ops_valid_script_needs_equal_heads :
     ∃ (x y : List Nat) (ops : List Op), operations x y = .ok ops ∧
-      countOp .deletion ops + countOp .noOp ops ≠ x.length :=
-  ⟨[1, 2], [3], [.deletion, .insertion], by rfl, by decide⟩
+      ¬ (countOp .deletion ops + countOp .noOp ops = x.length ∧
+         countOp .insertion ops + countOp .noOp ops = y.length) :=
+  ⟨[1, 2], [3, 4], _, rfl, by decide⟩
 
 /-- The cost in the final cell is the cost of the script read back, and no valid script is
 cheaper (2 per deleted/inserted token, +1 per group of edits opened after a no-op). -/
@@ -63,7 +64,8 @@ theorem dp_optimal {α : Type} [DecidableEq α] (t : α) (x y : List α) :
   have ho := opsSpec_optimal t x y
   exact ⟨_, _, operationsAndCost_eq _ _, ho.1, ho.2⟩
 
-example : operationsAndCost [0, 1, 2, 3] [0, 1, 5, 3] = .ok ([.noOp, .noOp, .deletion, .insertion, .noOp], 5) := by
+example : (operationsAndCost [0, 1, 2, 3] [0, 1, 5, 3]).map (·.2) =
+    .ok (deletionCost + insertionCost + initialMismatchPenalty) := by
   rfl
 
 /-- Pure insertion of one contiguous run `c :: b` of tokens: the operations are no-ops, exactly
@@ -135,7 +137,7 @@ private def lineAB : Line := ⟨[gA, gS, gB], [(0, 1), (2, 3)]⟩
 private def lineAA : Line := ⟨[gA, gS, gA], [(0, 1), (2, 3)]⟩
 
 example : annotatePair ⟨0, 1, 2, 3⟩ lineAB lineAA =
-    .ok ⟨[⟨0, [gA, gS]⟩, ⟨1, [gB]⟩], [⟨2, [gA]⟩, ⟨2, [gS]⟩, ⟨3, [gA]⟩], 2, 4⟩ := by rfl
+    .ok ⟨[⟨0, [gA, gS]⟩, ⟨1, [gB]⟩], [⟨2, [gA]⟩, ⟨2, [gS]⟩, ⟨3, [gA]⟩], 2, noopDenomWeight * 1 + 1 + 1⟩ := by rfl
 
 /-! ## infer_edits -/
 
